@@ -1,5 +1,7 @@
 /- driver glue for the file-format model: `ff <op> ...` -/
 import Libvna.Model.FileFmt
+import Libvna.Model.TsOption
+import Libvna.Model.Scalar
 
 namespace Libvna.Drv
 open Libvna.FF
@@ -13,6 +15,23 @@ def kindOf? : String → Option Kind
 
 def ffPairs (l : List (Nat × Nat)) : String :=
   l.foldl (fun acc p => acc ++ s!" {p.1},{p.2}") ""
+
+/-- decimal number as the Touchstone scanner accepts it after upper-casing: digits [. digits] [E [+|-] digits] -/
+def decNum? (s : String) : Option Float :=
+  let (mant, ex) := match s.splitOn "E" with
+    | [m] => (m, some (0 : Int))
+    | [m, e] => (m, (if e.startsWith "+" then (e.drop 1).toString else e).toInt?)
+    | _ => ("", none)
+  let (ip, fp) := match mant.splitOn "." with
+    | [i] => (i, "")
+    | [i, f] => (i, f)
+    | _ => ("x", "")
+  match (ip ++ fp).toNat?, ex with
+  | some m, some e =>
+    if ip.isEmpty ∧ fp.isEmpty then none else
+    let e' : Int := e - fp.length
+    some (if e' ≥ 0 then Float.ofScientific (m * 10 ^ e'.toNat) false 0 else Float.ofScientific m true (-e').toNat)
+  | _, _ => none
 
 def stepFF (args : List String) : String :=
   match args with
@@ -35,6 +54,10 @@ def stepFF (args : List String) : String :=
     match kindOf? ks, ps.toNat? with
     | some k, some p => let z := zs == "1"; s!"ok {fieldsW k z p} {fieldsL k z p} {quality k z}"
     | _, _ => "bad-args"
+  | "option" :: toks =>
+    match Libvna.TsOpt.parse decNum? 50.0 (toks.filter (· ≠ "")) with
+    | some o => s!"ok {o.mult} {o.param.toLower} {o.fmt} {Libvna.floatToHex o.r}"
+    | none => "fail"
   | _ => "bad-op"
 
 end Libvna.Drv
